@@ -31,7 +31,7 @@ def check(run):
         F = run.facts(cfg)
         # helpers this property stands on (rule sets owned by other properties, see common.deps)
         from common import deps as _deps
-        _deps(run, F, 'drivers', 'isnone', 'accessors', 'casts')
+        _deps(run, F, 'drivers', 'isnone', 'accessors', 'casts', 'wrappers', 'fast_paths')
         ks = [k for k in find_kernels(F) if k.fn.file.endswith('tea-rolling/src/features.rs')]
         run.floor('ACC', 'rolling kernels in features.rs', len(ks), 16)
         nacc = 0
